@@ -116,12 +116,16 @@ def build_repo(variant="plain"):
         ok = os.path.join(d, ".ok")
         if os.path.exists(ok):
             os.utime(ok)
+            os.utime(d)
             return Build(d, variant)
-        # keep at most 3 other build dirs (newest)
-        olds = sorted((x for x in os.listdir(BUILD) if os.path.isdir(os.path.join(BUILD, x))),
-                      key=lambda x: os.path.getmtime(os.path.join(BUILD, x)))
-        for x in olds[:-3]:
-            shutil.rmtree(os.path.join(BUILD, x), ignore_errors=True)
+        # prune: keep the 8 most recently used build dirs, and never one used in the last 3 hours
+        def last_used(x):
+            f = os.path.join(BUILD, x, ".ok")
+            return os.path.getmtime(f) if os.path.exists(f) else os.path.getmtime(os.path.join(BUILD, x))
+        olds = sorted((x for x in os.listdir(BUILD) if os.path.isdir(os.path.join(BUILD, x))), key=last_used)
+        for x in olds[:-8]:
+            if time.time() - last_used(x) > 3 * 3600:
+                shutil.rmtree(os.path.join(BUILD, x), ignore_errors=True)
         shutil.rmtree(d, ignore_errors=True)
         flags = "-D%s -O1" % GUARD
         if variant == "asan":
@@ -162,7 +166,7 @@ def compile_driver(build, src, extra_src=(), extra_flags=()):
         if os.path.exists(out):
             return out
         os.makedirs(os.path.dirname(out), exist_ok=True)
-        xml_libs = sh("xml2-config --libs")[1].split()
+        xml_libs = sh("/usr/bin/xml2-config --libs")[1].split()
         cmd = (["g++", "-std=c++17", "-O1", "-g", "-D" + GUARD] + build.san + build.inc +
                list(extra_flags) + srcs + [build.lib] + xml_libs + ["-lz", "-ldl", "-o", out + ".tmp"])
         rc, o = sh(cmd, timeout=900)
@@ -186,17 +190,37 @@ def coq_setup():
         sh("coq_makefile -f _CoqProject -o Makefile", cwd=COQ, check=True)
 
 
-def scan_forbidden():
+def coq_closure(start):
+    """files (relative to coq/) in the LC/LCGen dependency closure of theories/<start>.v"""
+    seen, todo = [], [("theories", start)]
+    while todo:
+        sub, nm = todo.pop()
+        rel = "%s/%s.v" % (sub, nm)
+        if rel in seen or not os.path.exists(os.path.join(COQ, rel)):
+            continue
+        seen.append(rel)
+        txt = re.sub(r"\(\*.*?\*\)", "", open(os.path.join(COQ, rel)).read(), flags=re.S)
+        for lib, names in re.findall(r"From\s+(LC|LCGen)\s+Require\s+(?:Import\s+|Export\s+)?([^.]*)\.", txt):
+            for n in names.split():
+                todo.append(("theories" if lib == "LC" else "gen", n))
+        for lib, n in re.findall(r"\b(LC|LCGen)\.([A-Za-z0-9_]+)", txt):
+            todo.append(("theories" if lib == "LC" else "gen", n))
+    return seen
+
+
+def scan_forbidden(files=None):
+    """forbidden vernacular in the given files (default: everything under coq/)"""
     hits = []
-    for sub in ("theories", "gen", "extract"):
-        d = os.path.join(COQ, sub)
-        for f in sorted(os.listdir(d)):
-            if not f.endswith(".v"):
-                continue
-            txt = open(os.path.join(d, f)).read()
-            txt = re.sub(r"\(\*.*?\*\)", "", txt, flags=re.S)
-            for m in FORBIDDEN.finditer(txt):
-                hits.append("%s/%s: %s" % (sub, f, m.group(0)))
+    if files is None:
+        files = []
+        for sub in ("theories", "gen", "extract"):
+            d = os.path.join(COQ, sub)
+            files += ["%s/%s" % (sub, f) for f in sorted(os.listdir(d)) if f.endswith(".v")]
+    for rel in files:
+        txt = open(os.path.join(COQ, rel)).read()
+        txt = re.sub(r"\(\*.*?\*\)", "", txt, flags=re.S)
+        for m in FORBIDDEN.finditer(txt):
+            hits.append("%s: %s" % (rel, m.group(0)))
     return hits
 
 
@@ -212,7 +236,7 @@ def coq_properties(pid, timeout=1500):
         src = open(pf).read()
         nocom = re.sub(r"\(\*.*?\*\)", "", src, flags=re.S)
         theorems = re.findall(r"^\s*(?:Theorem|Lemma|Corollary|Example)\s+([A-Za-z0-9_']+)", nocom, flags=re.M)
-        forb = scan_forbidden()
+        forb = scan_forbidden(coq_closure("Properties_%s" % pid))
         # force re-check of the property file itself so that its output (Print Assumptions) is seen
         for ext in (".vo", ".vok", ".vos", ".glob"):
             try:
@@ -259,6 +283,7 @@ def ocaml_driver(fam, timeout=900):
 
     Returns the path of the executable. Re-done when any input changed."""
     with Lock("coq"):
+        regenerate_tables()
         coq_setup()
         ex = os.path.join(COQ, "extract", "Extract_%s.v" % fam)
         drv = os.path.join(ROOT, "ocaml", fam, "driver.ml")
